@@ -215,6 +215,34 @@ class World:
         payload = self.ai_payload(repo, files, session, transcript, model, tool)
         return self.gitai(repo, "checkpoint", "agent-v1", "--hook-input", json.dumps(payload), env=env)
 
+    def claude_transcript_path(self, session):
+        d = os.path.join(self.root, "transcripts")
+        os.makedirs(d, exist_ok=True)
+        return os.path.join(d, "%s.jsonl" % session)
+
+    def claude_append_transcript(self, session, messages):
+        """the agent's own transcript file, which git-ai re-reads at commit time"""
+        with open(self.claude_transcript_path(session), "a") as f:
+            for i, m in enumerate(messages):
+                if m.get("type") == "user":
+                    rec = {"type": "user", "sessionId": session, "message": {"role": "user", "content": m["text"]},
+                           "uuid": "u%d-%d" % (self.now_ms, i), "timestamp": "2026-01-01T00:00:00.000Z"}
+                else:
+                    rec = {"type": "assistant", "sessionId": session,
+                           "message": {"role": "assistant", "model": "claude-sim", "type": "message",
+                                       "content": [{"type": "text", "text": m["text"]}]},
+                           "uuid": "a%d-%d" % (self.now_ms, i), "timestamp": "2026-01-01T00:00:01.000Z"}
+                f.write(json.dumps(rec) + "\n")
+
+    def ckpt_claude(self, repo, files, session, event, env=None):
+        if self.mode == "plain":
+            return Result(0, "", "")
+        self.counters["ckpt"] += 1
+        payload = {"cwd": repo, "hook_event_name": event, "session_id": session, "tool_name": "Edit",
+                   "tool_input": {"file_path": os.path.join(repo, files[0])},
+                   "transcript_path": self.claude_transcript_path(session)}
+        return self.gitai(repo, "checkpoint", "claude", "--hook-input", json.dumps(payload), env=env)
+
     # ------------------------------------------------------------------ observations
     def head(self, repo, rev="HEAD"):
         r = self.raw_git(repo, "rev-parse", "--verify", "-q", rev)
